@@ -213,11 +213,22 @@ func scnFaults(ctx *check.JobCtx) {
 		did := w.NewDataId()
 		_, oid := w.Store(world.StoreReq{Owner: owner.Id, Gateway: gw, DataId: did, CommitId: did, Duration: 3600, Replica: 2, Timeout: 500, Size: 1_000_000})
 		if oid != 0 {
-			w.CompleteAll(oid)
+			if len(targets)%3 == 2 {
+				// an order still in flight: its shards are assigned but have no lifetime yet; one provider stores
+				if od, ok := w.Cur.Orders[oid]; ok && len(od.Shards) > 0 {
+					sh := w.Cur.Shards[od.Shards[0]]
+					if pr := w.ProviderByAddr(sh.Sp); pr != nil {
+						w.Complete(pr.Acct, nil, oid, sh.Size_)
+					}
+				}
+			} else {
+				w.CompleteAll(oid)
+			}
 			targets = append(targets, target{did, oid})
 		}
 		w.EndBlock()
 	}
+	mk()
 	mk()
 	mk()
 	reporters := []struct {
@@ -286,6 +297,8 @@ func scnFaults(ctx *check.JobCtx) {
 		}
 		if !ok {
 			content += "+expired"
+		} else if sh, okS := w.Cur.Shards[f.ShardId]; okS && sh.Status != ShardCompleted {
+			content += "+shard-not-live"
 		}
 		switch r.Intn(5) {
 		case 0, 1, 2:
@@ -339,7 +352,17 @@ func scnFaults(ctx *check.JobCtx) {
 			m := &saotypes.MsgRecoverFaults{Creator: who.Addr.String(), Provider: accused, Faults: []*saotypes.Fault{&f2}}
 			w.Deliver("recover-faults", who, map[string]interface{}{"c19.case": name + "/" + content}, m)
 		case 4:
-			if r.Intn(3) == 0 {
+			if r.Intn(4) == 0 && ok {
+				// a holder starts to hand its shard over: the receiving provider's shard is listed but not live yet
+				for _, sid := range o.Shards {
+					if sh, okS := w.Cur.Shards[sid]; okS && sh.Status == ShardCompleted {
+						if pr := w.ProviderByAddr(sh.Sp); pr != nil {
+							w.Migrate(pr.Acct, t.data)
+							break
+						}
+					}
+				}
+			} else if r.Intn(3) == 0 {
 				// cross a penalty tick
 				next := (w.C.Height/600 + 1) * 600
 				w.AdvanceTo(next + 1)
